@@ -148,12 +148,14 @@ def run_shard(ctx):
                     try:
                         res, info = core.guarded(lambda: check_case(at, gs, mod, name, t, v, codec, numeric), 30)
                     except core.CaseTimeout:
+                        # logical verdict: a budget of interpreter line events that grows with the size of the value
                         outcome, steps = core.decide_hang(
-                            lambda: check_case(at, gs, mod, name, t, v, codec, numeric))
+                            lambda: check_case(at, gs, mod, name, t, v, codec, numeric),
+                            3000000 + 400 * len(repr(v)))
                         if outcome == 'budget':
-                            ctx.violation('no_termination_within_step_budget', case, {'steps': steps})
+                            ctx.violation('no_termination_within_step_budget', case, {'steps': steps, 'value_repr_length': len(repr(v))})
                         else:
-                            ctx.inconclusive.append('wall-clock trigger fired but case finished in {} steps'.format(steps))
+                            st.inc('slow_case_finished_within_step_budget')     # the wall-clock trigger was load
                         continue
                     st.inc('evaluations')
                     st.inc('codec:' + codec)
